@@ -27,8 +27,7 @@ structure Req where
 deriving Repr, DecidableEq, Inhabited
 
 inductive Err
-  | header          -- DiameterHeaderError (E bit already set / R bit set): library error
-  | attribute       -- AttributeError: the answer has no Session-Id AVP to copy into (foreign error)
+  | header          -- DiameterHeaderError: the "answer" has the R bit set (library error)
 deriving Repr, DecidableEq, Inhabited
 
 def ebit (f : Nat) : Bool := f / 32 % 2 == 1
@@ -49,19 +48,19 @@ def errorFamily (rc : Option Nat) : Bool :=
 /-- step 1: identifiers and Application-ID are copied from the request -/
 def copyIds (a : Ans) (r : Req) : Ans := { a with app := r.app, hbh := r.hbh, e2e := r.e2e }
 
-/-- step 2: the request's Session-Id is written into the answer's Session-Id AVP, then `refresh()` -/
+/-- step 2: the request's Session-Id is written into the answer's Session-Id AVP — or, when the
+    answer has none, a Session-Id AVP is put in front of its AVPs — then `refresh()` -/
 def copySession (a : Ans) (r : Req) : Except Err Ans :=
   match r.session with
   | none => .ok a
-  | some d =>
-    match a.session with
-    | none => .error .attribute
-    | some _ => .ok { a with session := some d, length := msgSize { a with session := some d } }
+  | some d => .ok { a with session := some d, length := msgSize { a with session := some d } }
 
-/-- step 3: error flag from the Result-Code family (`set_error_bit(True)` refuses when R or E is set) -/
+/-- step 3: error flag from the Result-Code family; an E bit the handler set itself is kept
+    (`set_error_bit(True)` refuses when the R bit is set) -/
 def setError (a : Ans) : Except Err Ans :=
   if errorFamily a.resultCode then
-    if rbit a.flags || ebit a.flags then .error .header else .ok { a with flags := a.flags + 32 }
+    if ebit a.flags then .ok a
+    else if rbit a.flags then .error .header else .ok { a with flags := a.flags + 32 }
   else .ok a
 
 /-- step 4: a Result-Code is not sent alongside an Experimental-Result (`pop` adjusts the length) -/
